@@ -1095,7 +1095,9 @@ def _may_iterate(t: T, obj: T) -> bool:
             return False
         if it.op in ("list", "tuple"):
             return any(x is obj or (x.op in ("tuple", "list") and any(
-                y is obj for y in x.args)) for x in it.args)
+                y is obj for y in x.args)) or
+                (x.op == "star" and holds(x.args[0], depth + 1))
+                for x in it.args)
         if it.op == "ite":
             return holds(it.args[1], depth + 1) or holds(it.args[2],
                                                          depth + 1)
